@@ -216,6 +216,12 @@ class LRI(dict):
         link[PREV][NEXT] = link[NEXT]
         link[NEXT][PREV] = link[PREV]
 
+    def __len__(self):
+        # under the lock: an eviction momentarily removes the old item
+        # before the new one is stored
+        with self._lock:
+            return super().__len__()
+
     def __setitem__(self, key, value):
         with self._lock:
             try:
